@@ -168,6 +168,51 @@ theorem aggregate_head_le (n thr : Nat) (d : Node) (src r : Nat) : d.head ≤ (d
 
 /-! ### what every protocol rule preserves -/
 
+/-- node level: same process, same clock, head not smaller -/
+def NExt (d d' : Node) : Prop := d'.up = d.up ∧ d'.clock = d.clock ∧ d.head ≤ d'.head
+
+theorem NExt.refl (d : Node) : NExt d d := ⟨rfl, rfl, Nat.le_refl _⟩
+theorem NExt.trans {a b c : Node} (h1 : NExt a b) (h2 : NExt b c) : NExt a c :=
+  ⟨h2.1.trans h1.1, h2.2.1.trans h1.2.1, Nat.le_trans h1.2.2 h2.2.2⟩
+
+theorem next_aggregate (n thr : Nat) (d : Node) (src r : Nat) : NExt d (d.aggregate n thr src r) :=
+  ⟨(aggregate_frame n thr d src r).1, (aggregate_frame n thr d src r).2.1, aggregate_head_le n thr d src r⟩
+
+theorem next_tickStep (n thr i : Nat) (d : Node) : NExt d (d.tickStep n thr i).1 := by
+  unfold Node.tickStep
+  by_cases hu : d.up = true
+  · simp only [hu, Bool.not_true, Bool.false_eq_true, if_false, Node.broadcast]
+    have h1 : NExt d (d.setTick d.clock) := ⟨rfl, rfl, Nat.le_refl _⟩
+    have h2 := NExt.trans h1 (next_aggregate n thr (d.setTick d.clock) i (Gen.bnpRound d.clock d.head))
+    split
+    · exact NExt.trans h2 ⟨rfl, rfl, Nat.le_refl _⟩
+    · exact h2
+  · simp [hu]; exact NExt.refl d
+
+theorem next_fireStep (n thr i : Nat) (d : Node) : NExt d (d.fireStep n thr i).1 := by
+  unfold Node.fireStep
+  by_cases hu : d.up = true
+  · simp only [hu, Bool.not_true, Bool.false_eq_true, if_false]
+    split
+    · exact NExt.refl d
+    · rename_i r rest _
+      have h1 : NExt d (d.setPending rest) := ⟨rfl, rfl, Nat.le_refl _⟩
+      exact NExt.trans h1 (next_aggregate n thr _ i (r + 1))
+  · simp [hu]; exact NExt.refl d
+
+theorem next_fireSteps (n thr i : Nat) : ∀ (c : Nat) (d : Node), NExt d (Node.fireSteps n thr i c d).1 := by
+  intro c
+  induction c with
+  | zero => intro d; exact NExt.refl d
+  | succ k ih => intro d; simp only [Node.fireSteps]; exact NExt.trans (next_fireStep n thr i d) (ih _)
+
+theorem next_recvStep (n thr : Nat) (reach : Bool) (d : Node) (m : Msg) : NExt d (d.recvStep n thr reach m) := by
+  unfold Node.recvStep
+  repeat' split
+  all_goals first
+    | exact NExt.refl d
+    | exact next_aggregate n thr d m.src m.round
+
 structure Ext (s s' : State) : Prop where
   n : s'.n = s.n
   thr : s'.thr = s.thr
@@ -183,64 +228,38 @@ theorem Ext.trans {a b c : State} (h1 : Ext a b) (h2 : Ext b c) : Ext a c :=
    fun k => (h2.clock k).trans (h1.clock k), fun k => Nat.le_trans (h1.head k) (h2.head k)⟩
 
 /-- replacing node i by a node with the same up/clock and a head at least as large -/
-theorem ext_setNode (s : State) (i : Nat) (d : Node) (hu : d.up = (s.node i).up) (hc : d.clock = (s.node i).clock)
-    (hh : (s.node i).head ≤ d.head) : Ext s (s.setNode i d) := by
+theorem ext_setNode (s : State) (i : Nat) (d : Node) (h : NExt (s.node i) d) : Ext s (s.setNode i d) := by
+  obtain ⟨hu, hc, hh⟩ := h
   refine ⟨rfl, rfl, rfl, ?_, ?_, ?_⟩ <;> intro k <;> by_cases hk : k = i <;> simp [State.setNode, hk, hu, hc, hh]
 
 theorem ext_msgs (s : State) (l : List Msg) : Ext s { s with msgs := l } :=
   ⟨rfl, rfl, rfl, fun _ => rfl, fun _ => rfl, fun _ => Nat.le_refl _⟩
 
-theorem broadcast_node (s : State) (i r k : Nat) :
-    (s.broadcast i r).node k = if k = i then (s.node i).aggregate s.n s.thr i r else s.node k := by
-  simp [State.broadcast, State.setNode]
+theorem act_node (s : State) (i k : Nat) (F : Node → Node × List Msg) :
+    (s.act i F).node k = if k = i then (F (s.node i)).1 else s.node k := rfl
+@[simp] theorem act_n (s : State) (i : Nat) (F : Node → Node × List Msg) : (s.act i F).n = s.n := rfl
+@[simp] theorem act_thr (s : State) (i : Nat) (F : Node → Node × List Msg) : (s.act i F).thr = s.thr := rfl
+@[simp] theorem act_conn (s : State) (i : Nat) (F : Node → Node × List Msg) : (s.act i F).conn = s.conn := rfl
+@[simp] theorem act_msgs (s : State) (i : Nat) (F : Node → Node × List Msg) :
+    (s.act i F).msgs = s.msgs ++ (F (s.node i)).2 := rfl
 
-@[simp] theorem broadcast_n (s : State) (i r : Nat) : (s.broadcast i r).n = s.n := rfl
-@[simp] theorem broadcast_thr (s : State) (i r : Nat) : (s.broadcast i r).thr = s.thr := rfl
-@[simp] theorem broadcast_conn (s : State) (i r : Nat) : (s.broadcast i r).conn = s.conn := rfl
-@[simp] theorem broadcast_msgs (s : State) (i r : Nat) : (s.broadcast i r).msgs = s.msgs ++ s.others i r := rfl
+theorem ext_act (s : State) (i : Nat) (F : Node → Node × List Msg) (h : NExt (s.node i) (F (s.node i)).1) :
+    Ext s (s.act i F) := by
+  obtain ⟨hu, hc, hh⟩ := h
+  refine ⟨rfl, rfl, rfl, ?_, ?_, ?_⟩ <;> intro k <;> by_cases hk : k = i <;> simp [act_node, hk, hu, hc, hh]
 
-theorem ext_broadcast (s : State) (i r : Nat) : Ext s (s.broadcast i r) := by
-  have hf := aggregate_frame s.n s.thr (s.node i) i r
-  refine Ext.trans (ext_setNode s i ((s.node i).aggregate s.n s.thr i r) hf.1 hf.2.1 (aggregate_head_le _ _ _ _ _)) ?_
-  exact ext_msgs _ _
-
-theorem ext_tick (s : State) (i : Nat) : Ext s (s.tick i) := by
-  unfold State.tick
-  by_cases hu : (s.node i).up = true
-  · simp only [hu, Bool.not_true, Bool.false_eq_true, if_false]
-    have h1 : Ext s (s.setNode i ((s.node i).setTick (s.node i).clock)) := ext_setNode s i _ rfl rfl (Nat.le_refl _)
-    have h2 := Ext.trans h1 (ext_broadcast (s.setNode i ((s.node i).setTick (s.node i).clock)) i
-      (Gen.bnpRound (s.node i).clock (s.node i).head))
-    split
-    · exact Ext.trans h2 (ext_setNode _ i _ rfl rfl (Nat.le_refl _))
-    · exact h2
-  · simp [hu]; exact Ext.refl s
-
-theorem ext_fire (s : State) (i : Nat) : Ext s (s.fire i) := by
-  unfold State.fire
-  by_cases hu : (s.node i).up = true
-  · simp only [hu, Bool.not_true, Bool.false_eq_true, if_false]
-    split
-    · exact Ext.refl s
-    · rename_i r rest _
-      exact Ext.trans (ext_setNode s i ((s.node i).setPending rest) rfl rfl (Nat.le_refl _)) (ext_broadcast _ i _)
-  · simp [hu]; exact Ext.refl s
-
-theorem ext_recv (s : State) (m : Msg) : Ext s (s.recv m) := by
-  unfold State.recv
-  have hf := aggregate_frame s.n s.thr (s.node m.dst) m.src m.round
-  repeat' split
-  all_goals first
-    | exact Ext.refl s
-    | exact ext_setNode s m.dst _ hf.1 hf.2.1 (aggregate_head_le _ _ _ _ _)
+theorem ext_tick (s : State) (i : Nat) : Ext s (s.tick i) := ext_act s i _ (next_tickStep _ _ _ _)
+theorem ext_fire (s : State) (i : Nat) : Ext s (s.fire i) := ext_act s i _ (next_fireStep _ _ _ _)
+theorem ext_fireNode (s : State) (i : Nat) : Ext s (s.fireNode i) := ext_act s i _ (next_fireSteps _ _ _ _ _)
+theorem ext_recv (s : State) (m : Msg) : Ext s (s.recv m) := ext_act s m.dst _ (next_recvStep _ _ _ _ _)
 
 theorem ext_pull (s : State) (i : Nat) : Ext s (s.pull i) := by
   unfold State.pull
   repeat' split
   all_goals first
     | exact Ext.refl s
-    | exact ext_setNode s i _ rfl rfl (Nat.le_refl _)
-    | (refine ext_setNode s i _ ?_ ?_ ?_ <;> simp [appendTo_head])
+    | exact ext_setNode s i _ ⟨rfl, rfl, Nat.le_refl _⟩
+    | (refine ext_setNode s i _ ⟨?_, ?_, ?_⟩ <;> simp [appendTo_head])
 
 theorem ext_foldl {α : Type} (f : State → α → State) (hf : ∀ s a, Ext s (f s a)) :
     ∀ (l : List α) (s : State), Ext s (l.foldl f s) := by
@@ -255,62 +274,43 @@ theorem ext_deliverAll (s : State) : Ext s s.deliverAll :=
 theorem ext_forAll (s : State) (f : State → Nat → State) (hf : ∀ s a, Ext s (f s a)) : Ext s (s.forAll f) :=
   ext_foldl f hf _ _
 
-theorem ext_fireN (i : Nat) : ∀ (c : Nat) (s : State), Ext s (s.fireN i c) := by
-  intro c
-  induction c with
-  | zero => intro s; exact Ext.refl s
-  | succ k ih => intro s; exact Ext.trans (ext_fire s i) (ih (s.fire i))
-
-theorem ext_fireNode (s : State) (i : Nat) : Ext s (s.fireNode i) := ext_fireN i _ s
-
 theorem ext_settle (s : State) : Ext s s.settle :=
   Ext.trans (Ext.trans (ext_forAll s _ ext_pull) (ext_deliverAll _)) (ext_forAll _ _ ext_pull)
 
 theorem ext_fairCatch (s : State) : Ext s s.fairCatch :=
   Ext.trans (ext_forAll s _ ext_fireNode) (ext_settle _)
 
-
 /-! ### c05_no_skip, heads only grow -/
 
-theorem tick_head (s : State) (i k : Nat) :
-    ((s.tick i).node k).head =
-      if k = i ∧ (s.node i).up = true then
-        (((s.node i).setTick (s.node i).clock).aggregate s.n s.thr i (Gen.bnpRound (s.node i).clock (s.node i).head)).head
-      else (s.node k).head := by
-  unfold State.tick
-  by_cases hu : (s.node i).up = true <;> by_cases hk : k = i
-  · subst hk; simp only [hu, Bool.not_true, Bool.false_eq_true, if_false]
-    split <;> simp [broadcast_node]
-  · simp only [hu, Bool.not_true, Bool.false_eq_true, if_false]
-    split <;> simp [broadcast_node, setNode_node, hk]
-  · subst hk; simp [hu]
-  · simp [hu, hk]
+theorem tickStep_head (n thr i : Nat) (d : Node) :
+    (d.tickStep n thr i).1.head = d.head ∨ (d.tickStep n thr i).1.head = d.head + 1 := by
+  unfold Node.tickStep
+  by_cases hu : d.up = true
+  · simp only [hu, Bool.not_true, Bool.false_eq_true, if_false, Node.broadcast]
+    have := (aggregate_frame n thr (d.setTick d.clock) i (Gen.bnpRound d.clock d.head)).2.2.2.1
+    split <;> simp at this ⊢ <;> omega
+  · simp [hu]
 
-theorem fire_head (s : State) (i k : Nat) :
-    ((s.fire i).node k).head = (s.node k).head ∨
-    (k = i ∧ ∃ r rest, (s.node i).pending = r :: rest ∧
-      ((s.fire i).node k).head = (((s.node i).setPending rest).aggregate s.n s.thr i (r + 1)).head) := by
-  unfold State.fire
-  by_cases hu : (s.node i).up = true
+theorem fireStep_head (n thr i : Nat) (d : Node) :
+    (d.fireStep n thr i).1.head = d.head ∨ (d.fireStep n thr i).1.head = d.head + 1 := by
+  unfold Node.fireStep
+  by_cases hu : d.up = true
   · simp only [hu, Bool.not_true, Bool.false_eq_true, if_false]
     split
     · left; rfl
-    · rename_i r rest hp
-      by_cases hk : k = i
-      · right; subst hk; exact ⟨rfl, r, rest, hp, by simp [broadcast_node]⟩
-      · left; simp [broadcast_node, setNode_node, hk]
-  · left; simp [hu]
+    · rename_i r rest _
+      have := (aggregate_frame n thr (d.setPending rest) i (r + 1)).2.2.2.1
+      simp [Node.broadcast] at this ⊢; omega
+  · simp [hu]
 
-theorem recv_head (s : State) (m : Msg) (k : Nat) :
-    ((s.recv m).node k).head = (s.node k).head ∨
-    (k = m.dst ∧ ((s.recv m).node k).head = ((s.node m.dst).aggregate s.n s.thr m.src m.round).head) := by
-  unfold State.recv
+theorem recvStep_head (n thr : Nat) (reach : Bool) (d : Node) (m : Msg) :
+    (d.recvStep n thr reach m).head = d.head ∨ (d.recvStep n thr reach m).head = d.head + 1 := by
+  unfold Node.recvStep
+  have := (aggregate_frame n thr d m.src m.round).2.2.2.1
   repeat' split
   all_goals first
     | (left; rfl)
-    | (by_cases hk : k = m.dst
-       · right; subst hk; exact ⟨rfl, by simp⟩
-       · left; simp [setNode_node, hk])
+    | omega
 
 /-- the events of the step relation that stand for one rule firing once (the other two, `deliverAll` and `pull`,
 are finite compositions: `deliverAll` of `recv`, `pull` of `Node.put`) -/
@@ -346,6 +346,13 @@ theorem c05_heads_monotone_run (evs : List Ev) : ∀ (s : State) (k : Nat), (s.n
   | nil => intro s k; exact Nat.le_refl _
   | cons e t ih => intro s k; exact Nat.le_trans (c05_heads_monotone s e k) (ih (s.apply e) k)
 
+private theorem act_head_step (s : State) (i k : Nat) (F : Node → Node × List Msg)
+    (h : (F (s.node i)).1.head = (s.node i).head ∨ (F (s.node i)).1.head = (s.node i).head + 1) :
+    ((s.act i F).node k).head = (s.node k).head ∨ ((s.act i F).node k).head = (s.node k).head + 1 := by
+  by_cases hk : k = i
+  · subst hk; simpa [act_node] using h
+  · left; simp [act_node, hk]
+
 /-- Every append is head+1 (C02 seen from the protocol): the only operation that moves a head is `Node.put`, which
 stores `r` only when `r = head + 1`; one firing of a rule moves a head by at most one; a sync (`pull`) is a run of
 `put`s over consecutive rounds. -/
@@ -361,32 +368,13 @@ theorem c05_no_skip :
   intro s e k hm
   cases e with
   | advance => left; simp [State.apply, State.advance]
-  | tick i =>
-    simp only [State.apply, tick_head]
-    split
-    · rename_i h
-      rcases (aggregate_frame s.n s.thr ((s.node i).setTick (s.node i).clock) i (Gen.bnpRound (s.node i).clock (s.node i).head)).2.2.2.1 with h1 | h1
-      · left; rw [h1, h.1]; rfl
-      · right; rw [h1.1, h.1]; rfl
-    · left; rfl
-  | fire i =>
-    simp only [State.apply]
-    rcases fire_head s i k with h | ⟨hk, r, rest, _, h⟩
-    · left; exact h
-    · rw [h, hk]
-      rcases (aggregate_frame s.n s.thr ((s.node i).setPending rest) i (r + 1)).2.2.2.1 with h1 | h1
-      · left; rw [h1]; rfl
-      · right; rw [h1.1]; rfl
+  | tick i => exact act_head_step s i k _ (tickStep_head _ _ _ _)
+  | fire i => exact act_head_step s i k _ (fireStep_head _ _ _ _)
   | deliver j =>
     simp only [State.apply]
     split
     · rename_i m _
-      rcases recv_head { s with msgs := s.msgs.eraseIdx j } m k with h | ⟨hk, h⟩
-      · left; exact h
-      · rw [h, hk]
-        rcases (aggregate_frame s.n s.thr (s.node m.dst) m.src m.round).2.2.2.1 with h1 | h1
-        · left; exact h1
-        · right; exact h1.1
+      exact act_head_step { s with msgs := s.msgs.eraseIdx j } m.dst k _ (recvStep_head _ _ _ _ _)
     · left; rfl
   | drop j => left; simp [State.apply]
   | deliverAll => simp [Ev.micro] at hm
@@ -410,5 +398,482 @@ theorem c05_no_skip_store (st : Drand.Chain.Stack) (b : Drand.Beacon) (h : Drand
   refine ⟨fun hok => ?_, this.2⟩
   have h1 := this.1 hok
   exact ⟨h1.1, by rw [h1.2.1, h1.1]⟩
+
+
+/-! ### counting signers -/
+
+private theorem nodup_subset_length : ∀ (l₁ l₂ : List Nat), l₁.Nodup → (∀ x ∈ l₁, x ∈ l₂) → l₁.length ≤ l₂.length := by
+  intro l₁
+  induction l₁ with
+  | nil => intro l₂ _ _; simp
+  | cons a t ih =>
+    intro l₂ hn hs
+    have ha : a ∈ l₂ := hs a (by simp)
+    have hn' := List.nodup_cons.mp hn
+    have hsub : ∀ x ∈ t, x ∈ l₂.erase a := by
+      intro x hx
+      have hne : x ≠ a := fun h => hn'.1 (h ▸ hx)
+      exact (List.mem_erase_of_ne hne).mpr (hs x (by simp [hx]))
+    have h1 := ih (l₂.erase a) hn'.2 hsub
+    have h2 := List.length_erase_of_mem ha
+    have h3 : 0 < l₂.length := List.length_pos_of_mem ha
+    simp only [List.length_cons]
+    omega
+
+/-- if every member of a duplicate-free `U` (of node indices) has its partial on `r` in the cache, the cache counts ≥ |U| -/
+theorem count_ge (n : Nat) (held : Nat → Nat → Bool) (r : Nat) (U : List Nat) (hn : U.Nodup)
+    (h : ∀ i ∈ U, i < n ∧ held r i = true) : U.length ≤ count n held r := by
+  unfold count
+  apply nodup_subset_length U _ hn
+  intro x hx
+  simp [List.mem_filter, h x hx]
+
+/-- if every signer counted for `r` belongs to `D`, the cache counts ≤ |D| -/
+theorem count_le (n : Nat) (held : Nat → Nat → Bool) (r : Nat) (D : List Nat)
+    (h : ∀ k, k < n → held r k = true → k ∈ D) : count n held r ≤ D.length := by
+  unfold count
+  apply nodup_subset_length _ D (List.Nodup.sublist List.filter_sublist List.nodup_range)
+  intro x hx
+  simp [List.mem_filter] at hx
+  exact h x hx.1 hx.2
+
+/-! ### folds of node-local steps -/
+
+private theorem flatMap_congr' {α β : Type} (f g : α → List β) : ∀ (l : List α), (∀ i ∈ l, f i = g i) → l.flatMap f = l.flatMap g := by
+  intro l
+  induction l with
+  | nil => intro _; rfl
+  | cons a t ih =>
+    intro h
+    simp only [List.flatMap_cons]
+    rw [h a (by simp), ih (fun i hi => h i (by simp [hi]))]
+
+theorem foldl_act (G : Nat → Nat → Nat → Node → Node × List Msg) :
+    ∀ (l : List Nat) (s : State), l.Nodup →
+      (l.foldl (fun s i => s.act i (G s.n s.thr i)) s).n = s.n ∧
+      (l.foldl (fun s i => s.act i (G s.n s.thr i)) s).thr = s.thr ∧
+      (l.foldl (fun s i => s.act i (G s.n s.thr i)) s).conn = s.conn ∧
+      (∀ k, (l.foldl (fun s i => s.act i (G s.n s.thr i)) s).node k =
+        if k ∈ l then (G s.n s.thr k (s.node k)).1 else s.node k) ∧
+      (l.foldl (fun s i => s.act i (G s.n s.thr i)) s).msgs = s.msgs ++ l.flatMap (fun i => (G s.n s.thr i (s.node i)).2) := by
+  intro l
+  induction l with
+  | nil => intro s _; simp
+  | cons a t ih =>
+    intro s hn
+    have hn' := List.nodup_cons.mp hn
+    obtain ⟨h1, h2, h3, h4, h5⟩ := ih (s.act a (G s.n s.thr a)) hn'.2
+    simp only [List.foldl_cons]
+    refine ⟨by rw [h1]; rfl, by rw [h2]; rfl, by rw [h3]; rfl, ?_, ?_⟩
+    · intro k
+      rw [h4 k]
+      simp only [act_n, act_thr, act_node]
+      by_cases hk : k = a
+      · subst hk; simp [hn'.1]
+      · simp [hk]
+    · rw [h5]
+      simp only [act_n, act_thr, act_msgs, List.flatMap_cons, List.append_assoc]
+      congr 2
+      apply flatMap_congr'
+      intro i hi
+      have : i ≠ a := fun h => hn'.1 (h ▸ hi)
+      simp [act_node, this]
+
+/-- node j's view of a batch of deliveries: only the messages addressed to it matter -/
+theorem foldl_recv (j : Nat) : ∀ (l : List Msg) (s : State),
+    (l.foldl State.recv s).n = s.n ∧ (l.foldl State.recv s).thr = s.thr ∧ (l.foldl State.recv s).conn = s.conn ∧
+    (l.foldl State.recv s).node j =
+      l.foldl (fun d m => if m.dst = j then d.recvStep s.n s.thr (s.conn m.src m.dst) m else d) (s.node j) := by
+  intro l
+  induction l with
+  | nil => intro s; simp
+  | cons m t ih =>
+    intro s
+    obtain ⟨h1, h2, h3, h4⟩ := ih (s.recv m)
+    simp only [List.foldl_cons]
+    refine ⟨by rw [h1]; rfl, by rw [h2]; rfl, by rw [h3]; rfl, ?_⟩
+    rw [h4]
+    have e1 : (s.recv m).n = s.n := rfl
+    have e2 : (s.recv m).thr = s.thr := rfl
+    have e3 : (s.recv m).conn = s.conn := rfl
+    rw [e1, e2, e3]
+    congr 1
+    by_cases hj : m.dst = j
+    · subst hj; simp [State.recv, act_node]
+    · have : j ≠ m.dst := fun h => hj h.symm
+      simp [State.recv, act_node, this, hj]
+
+
+/-! ### the healthy side of the network -/
+
+/-- `U` is one side of the network: running nodes, pairwise connected, and closed (every running node that has a link
+to or from a member is a member) -/
+structure Side (s : State) (U : List Nat) : Prop where
+  nodup : U.Nodup
+  lt : ∀ i ∈ U, i < s.n
+  up : ∀ i ∈ U, (s.node i).up = true
+  conn : ∀ i ∈ U, ∀ j ∈ U, s.conn i j = true
+  closed : ∀ i ∈ U, ∀ k, k < s.n → (s.node k).up = true → (s.conn k i = true ∨ s.conn i k = true) → k ∈ U
+
+theorem Side.ext {s s' : State} {U : List Nat} (h : Side s U) (e : Ext s s') : Side s' U :=
+  ⟨h.nodup, fun i hi => e.n ▸ h.lt i hi, fun i hi => (e.up i).trans (h.up i hi),
+   fun i hi j hj => by rw [e.conn]; exact h.conn i hi j hj,
+   fun i hi k hk hu hc => h.closed i hi k (e.n ▸ hk) ((e.up k).symm.trans hu) (by rw [← e.conn]; exact hc)⟩
+
+/-- no partial for a round above `h + 1` is in flight towards `U` or cached in `U` -/
+def Quiet (s : State) (U : List Nat) (h : Nat) : Prop :=
+  (∀ m ∈ s.msgs, m.dst ∈ U → s.conn m.src m.dst = true → m.round ≤ h + 1) ∧
+  (∀ j ∈ U, ∀ r k, (s.node j).held r k = true → r ≤ h + 1)
+
+/-- progress invariant of one node of the healthy side during a sub-round in which round `h + 1` is being signed:
+either it already stores `h + 1`, or it sits at `h`, has not reached the threshold yet, caches nothing above `h + 1`
+and holds the partial of every signer in `S` -/
+def Prog (n thr h c : Nat) (S : Nat → Prop) (d : Node) : Prop :=
+  d.up = true ∧ d.clock = c ∧
+  (h + 1 ≤ d.head ∨
+    (d.head = h ∧ count n d.held (h + 1) < thr ∧ (∀ r k, d.held r k = true → r ≤ h + 1) ∧ ∀ k, S k → d.held (h + 1) k = true))
+
+theorem Prog.weaken {n thr h c : Nat} {S S' : Nat → Prop} {d : Node} (hp : Prog n thr h c S d) (hs : ∀ k, S' k → S k) :
+    Prog n thr h c S' d := by
+  obtain ⟨hu, hc, hd⟩ := hp
+  refine ⟨hu, hc, ?_⟩
+  rcases hd with hd | ⟨h1, h2, h3, h4⟩
+  · exact Or.inl hd
+  · exact Or.inr ⟨h1, h2, h3, fun k hk => h4 k (hs k hk)⟩
+
+theorem Prog.head_ge {n thr h c : Nat} {S : Nat → Prop} {d : Node} (hp : Prog n thr h c S d) : h ≤ d.head := by
+  rcases hp.2.2 with hd | ⟨h1, _⟩ <;> omega
+
+/-- a partial on `h + 1` enters the aggregator of a node that satisfies the invariant -/
+theorem prog_aggregate {n thr h c : Nat} {S : Nat → Prop} {d : Node} (hp : Prog n thr h c S d) (src : Nat) :
+    Prog n thr h c (fun k => S k ∨ k = src) (d.aggregate n thr src (h + 1)) := by
+  obtain ⟨hu, hc, hd⟩ := hp
+  have hf := aggregate_frame n thr d src (h + 1)
+  refine ⟨hf.1.trans hu, hf.2.1.trans hc, ?_⟩
+  rcases hd with hd | ⟨h1, h2, h3, h4⟩
+  · left; have := aggregate_head_le n thr d src (h + 1); omega
+  · rcases aggregate_cases n thr d src (h + 1) with ⟨hw, _⟩ | ⟨_, hcnt, he⟩ | ⟨_, _, hlt, _⟩ | ⟨_, _, he⟩
+    · exfalso; apply hw; have := Gen.partialCacheStoreLimit; omega
+    · right
+      rw [he]
+      refine ⟨h1, hcnt, ?_, ?_⟩
+      · intro r k hk
+        simp only [setHeld_held, addPartial, Bool.or_eq_true, Bool.and_eq_true, decide_eq_true_eq] at hk
+        rcases hk with hk | hk
+        · omega
+        · exact h3 r k hk
+      · intro k hk
+        simp only [setHeld_held, addPartial, Bool.or_eq_true, Bool.and_eq_true, decide_eq_true_eq]
+        rcases hk with hk | hk
+        · right; exact h4 k hk
+        · left; exact ⟨trivial, hk⟩
+    · omega
+    · left
+      rw [he]
+      split <;> simp
+
+/-- `ProcessPartialBeacon`: the packet is ignored, or it passes every filter and reaches the aggregator -/
+theorem recvStep_cases (n thr : Nat) (reach : Bool) (d : Node) (m : Msg) :
+    (d.recvStep n thr reach m = d ∧
+      ¬ (d.up = true ∧ reach = true ∧ m.round ≤ d.clock + 1 ∧ d.head < m.round ∧ m.src ≠ m.dst)) ∨
+    (d.up = true ∧ reach = true ∧ m.round ≤ d.clock + 1 ∧ d.head < m.round ∧ m.src ≠ m.dst ∧
+      d.recvStep n thr reach m = d.aggregate n thr m.src m.round) := by
+  unfold Node.recvStep
+  simp only [Gen.ppbFuture, Gen.ppbPast]
+  by_cases hu : d.up = true
+  · by_cases hr : reach = true
+    · by_cases hfut : d.clock + 1 < m.round
+      · left; simp [hu, hr, hfut]; omega
+      · by_cases hpast : m.round ≤ d.head
+        · left; simp [hu, hr, hfut, hpast]; omega
+        · by_cases hown : m.src = m.dst
+          · left; simp [hu, hr, hfut, hpast, hown]
+          · right; simp [hu, hr, hfut, hpast, hown]; omega
+    · left; simp [hu, hr]
+  · left; simp [hu]
+
+/-- `ProcessPartialBeacon` on a message that is not above `h + 1` -/
+theorem prog_recvStep {n thr h c : Nat} {S : Nat → Prop} {d : Node} (hc : h < c) (hp : Prog n thr h c S d)
+    (reach : Bool) (m : Msg) (hm : reach = true → m.round ≤ h + 1) :
+    Prog n thr h c (fun k => S k ∨ (reach = true ∧ m.round = h + 1 ∧ k = m.src ∧ m.src ≠ m.dst))
+      (d.recvStep n thr reach m) := by
+  rcases recvStep_cases n thr reach d m with ⟨he, hne⟩ | ⟨hu, hr, hfut, hpast, hown, he⟩
+  · rw [he]
+    obtain ⟨hu, hcl, hd⟩ := hp
+    refine ⟨hu, hcl, ?_⟩
+    rcases hd with hd | ⟨h1, h2, h3, h4⟩
+    · exact Or.inl hd
+    · right
+      refine ⟨h1, h2, h3, ?_⟩
+      intro k hk
+      rcases hk with hk | ⟨hr, hround, _, hsd⟩
+      · exact h4 k hk
+      · exfalso; apply hne; refine ⟨hu, hr, ?_, ?_, hsd⟩ <;> omega
+  · rw [he]
+    have hge := hp.head_ge
+    have hrd : m.round = h + 1 := by have := hm hr; omega
+    rw [hrd]
+    exact (prog_aggregate hp m.src).weaken (fun k hk => by
+      rcases hk with hk | ⟨_, _, hk, _⟩
+      · exact Or.inl hk
+      · exact Or.inr hk)
+
+
+/-- once the partial of every member of `U` is in, the threshold test cannot still be failing -/
+theorem Prog.done {n thr h c : Nat} {S : Nat → Prop} {d : Node} (hp : Prog n thr h c S d) (U : List Nat)
+    (hn : U.Nodup) (hlt : ∀ i ∈ U, i < n) (hthr : thr ≤ U.length) (hS : ∀ i ∈ U, S i) : h + 1 ≤ d.head := by
+  rcases hp.2.2 with hd | ⟨_, h2, _, h4⟩
+  · exact hd
+  · exfalso
+    have := count_ge n d.held (h + 1) U hn (fun i hi => ⟨hlt i hi, h4 i (hS i hi)⟩)
+    omega
+
+/-- node j's view of a batch of deliveries in which nothing deliverable is above `h + 1` -/
+theorem prog_deliver {n thr h c : Nat} (conn : Nat → Nat → Bool) (j : Nat) (hc : h < c) :
+    ∀ (L : List Msg) (d : Node) (S : Nat → Prop), Prog n thr h c S d →
+      (∀ m ∈ L, m.dst = j → conn m.src m.dst = true → m.round ≤ h + 1) →
+      Prog n thr h c (fun k => S k ∨ ∃ m ∈ L, m.dst = j ∧ conn m.src j = true ∧ m.round = h + 1 ∧ m.src = k ∧ k ≠ j)
+        (L.foldl (fun d m => if m.dst = j then d.recvStep n thr (conn m.src m.dst) m else d) d) := by
+  intro L
+  induction L with
+  | nil => intro d S hp _; exact hp.weaken (fun k hk => by rcases hk with hk | ⟨m, hm, _⟩; exact hk; cases hm)
+  | cons m t ih =>
+    intro d S hp hq
+    simp only [List.foldl_cons]
+    have hq' : ∀ m' ∈ t, m'.dst = j → conn m'.src m'.dst = true → m'.round ≤ h + 1 :=
+      fun m' hm' => hq m' (by simp [hm'])
+    by_cases hj : m.dst = j
+    · simp only [hj, if_true]
+      have h1 := prog_recvStep hc hp (conn m.src j) m (fun hr => hq m (by simp) hj (by rw [hj]; exact hr))
+      refine (ih _ _ h1 hq').weaken ?_
+      intro k hk
+      rcases hk with hk | ⟨m', hm', h1, h2, h3, h4, h5⟩
+      · exact Or.inl (Or.inl hk)
+      · rcases List.mem_cons.mp hm' with he | hm''
+        · subst he
+          left; right
+          exact ⟨h2, h3, h4.symm, by rw [h4, hj]; exact h5⟩
+        · right; exact ⟨m', hm'', h1, h2, h3, h4, h5⟩
+    · simp only [hj, if_false]
+      refine (ih _ _ hp hq').weaken ?_
+      intro k hk
+      rcases hk with hk | ⟨m', hm', h1, h2, h3, h4, h5⟩
+      · exact Or.inl hk
+      · rcases List.mem_cons.mp hm' with he | hm''
+        · subst he; exact absurd h1 hj
+        · right; exact ⟨m', hm'', h1, h2, h3, h4, h5⟩
+
+/-- a sync step: nothing, the request ends, or beacons are pulled up to `min syncTo (best peer)` which is above the head -/
+theorem pull_cases (s : State) (i : Nat) :
+    s.pull i = s ∨ s.pull i = s.setNode i ((s.node i).setSync 0) ∨
+    ((s.node i).up = true ∧ (s.node i).head < min (s.node i).syncTo (s.maxPeerHead i) ∧
+      ∃ v, s.pull i = s.setNode i (((s.node i).appendTo (min (s.node i).syncTo (s.maxPeerHead i))).setSync v)) := by
+  unfold State.pull
+  simp only [Gen.syncFilled]
+  by_cases hu : (s.node i).up = true
+  · by_cases h0 : (s.node i).syncTo = 0
+    · left; simp [hu, h0]
+    · by_cases hf : (s.node i).syncTo ≤ (s.node i).head
+      · right; left
+        have : 0 < (s.node i).syncTo := by omega
+        simp [hu, h0, hf, this]
+      · by_cases hm : s.maxPeerHead i ≤ (s.node i).head
+        · right; left
+          simp [hu, h0, hf, hm]
+        · right; right
+          refine ⟨hu, by omega, (if ((s.node i).appendTo (min (s.node i).syncTo (s.maxPeerHead i))).head < (s.node i).syncTo then (s.node i).syncTo else 0), ?_⟩
+          simp [hu, h0, hf, hm]
+  · left; simp [hu]
+
+/-- a sync step of any node keeps the invariant of node j -/
+theorem prog_pull {n thr h c : Nat} {S : Nat → Prop} (s : State) (i j : Nat) (hp : Prog n thr h c S (s.node j)) :
+    Prog n thr h c S ((s.pull i).node j) := by
+  rcases pull_cases s i with he | he | ⟨_, hlt, v, he⟩ <;> rw [he]
+  · exact hp
+  · by_cases hj : j = i
+    · subst hj; simp only [setNode_same]; exact ⟨hp.1, hp.2.1, hp.2.2⟩
+    · rw [setNode_other _ _ _ _ hj]; exact hp
+  · by_cases hj : j = i
+    · subst hj
+      simp only [setNode_same]
+      refine ⟨by simpa using hp.1, by simpa using hp.2.1, Or.inl ?_⟩
+      have := hp.head_ge
+      simp only [setSync_head, appendTo_head]
+      omega
+    · rw [setNode_other _ _ _ _ hj]; exact hp
+
+theorem prog_foldl_pull {n thr h c : Nat} {S : Nat → Prop} (j : Nat) : ∀ (l : List Nat) (s : State),
+    Prog n thr h c S (s.node j) → Prog n thr h c S ((l.foldl State.pull s).node j) := by
+  intro l
+  induction l with
+  | nil => intro s hp; exact hp
+  | cons a t ih => intro s hp; exact ih _ (prog_pull s a j hp)
+
+
+theorem prog_setSync {n thr h c : Nat} {S : Nat → Prop} {d : Node} (v : Nat) (hp : Prog n thr h c S d) :
+    Prog n thr h c S (d.setSync v) := hp
+
+/-- the node's own partial on `h + 1` enters its aggregator (tick, or wake-up of a catch-up goroutine) -/
+theorem prog_first {n thr h c : Nat} {d : Node} (hu : d.up = true) (hcl : d.clock = c) (hh : d.head = h)
+    (hq : ∀ r k, d.held r k = true → r ≤ h + 1) (i : Nat) :
+    Prog n thr h c (fun k => k = i) (d.aggregate n thr i (h + 1)) := by
+  have hf := aggregate_frame n thr d i (h + 1)
+  refine ⟨hf.1.trans hu, hf.2.1.trans hcl, ?_⟩
+  rcases aggregate_cases n thr d i (h + 1) with ⟨hw, _⟩ | ⟨_, hcnt, he⟩ | ⟨_, _, hlt, _⟩ | ⟨_, _, he⟩
+  · exfalso; apply hw; have := Gen.partialCacheStoreLimit; omega
+  · right
+    rw [he]
+    refine ⟨hh, hcnt, ?_, ?_⟩
+    · intro r k hk
+      simp only [setHeld_held, addPartial, Bool.or_eq_true, Bool.and_eq_true, decide_eq_true_eq] at hk
+      rcases hk with hk | hk
+      · omega
+      · exact hq r k hk
+    · intro k hk
+      simp [setHeld_held, addPartial, hk]
+  · omega
+  · left
+    rw [he]
+    split <;> simp
+
+theorem bnpRound_behind {c h : Nat} (hc : h < c) : Gen.bnpRound c h = h + 1 := by
+  have : c ≠ h := by omega
+  simp [Gen.bnpRound, this]
+
+/-- the tick of a node of the healthy side that sits at `h < c` -/
+theorem prog_tickStep {n thr h c : Nat} {d : Node} (hu : d.up = true) (hcl : d.clock = c) (hh : d.head = h) (hc : h < c)
+    (hq : ∀ r k, d.held r k = true → r ≤ h + 1) (i : Nat) :
+    Prog n thr h c (fun k => k = i) (d.tickStep n thr i).1 ∧ (d.tickStep n thr i).2 = others n i (h + 1) := by
+  unfold Node.tickStep
+  simp only [hu, Bool.not_true, Bool.false_eq_true, if_false, Node.broadcast, hcl, hh, bnpRound_behind hc]
+  have h1 : Prog n thr h c (fun k => k = i) ((d.setTick c).aggregate n thr i (h + 1)) :=
+    prog_first (d := d.setTick c) hu hcl hh hq i
+  split
+  · exact ⟨prog_setSync _ h1, rfl⟩
+  · exact ⟨h1, rfl⟩
+
+theorem mem_others {n i r : Nat} {m : Msg} : m ∈ others n i r ↔ m.src = i ∧ m.round = r ∧ m.dst < n ∧ m.dst ≠ i := by
+  unfold others
+  simp only [List.mem_map, List.mem_filter, List.mem_range, bne_iff_ne, ne_eq]
+  constructor
+  · rintro ⟨j, ⟨hj, hne⟩, rfl⟩; exact ⟨rfl, rfl, hj, hne⟩
+  · rintro ⟨h1, h2, h3, h4⟩
+    exact ⟨m.dst, ⟨h3, h4⟩, by cases m; simp_all⟩
+
+theorem tickStep_msgs {n thr i : Nat} {d : Node} {m : Msg} (hm : m ∈ (d.tickStep n thr i).2) :
+    d.up = true ∧ m.src = i ∧ m.round = Gen.bnpRound d.clock d.head := by
+  unfold Node.tickStep at hm
+  by_cases hu : d.up = true
+  · simp only [hu, Bool.not_true, Bool.false_eq_true, if_false, Node.broadcast] at hm
+    have : m ∈ others n i (Gen.bnpRound d.clock d.head) := by split at hm <;> exact hm
+    exact ⟨hu, (mem_others.mp this).1, (mem_others.mp this).2.1⟩
+  · simp [hu] at hm
+
+
+theorem pull_frame (s : State) (i : Nat) :
+    (s.pull i).n = s.n ∧ (s.pull i).thr = s.thr ∧ (s.pull i).conn = s.conn ∧ (s.pull i).msgs = s.msgs := by
+  rcases pull_cases s i with he | he | ⟨_, _, v, he⟩ <;> rw [he] <;> simp
+
+theorem foldl_pull_frame : ∀ (l : List Nat) (s : State),
+    (l.foldl State.pull s).n = s.n ∧ (l.foldl State.pull s).thr = s.thr ∧ (l.foldl State.pull s).conn = s.conn ∧
+    (l.foldl State.pull s).msgs = s.msgs := by
+  intro l
+  induction l with
+  | nil => intro s; simp
+  | cons a t ih =>
+    intro s
+    obtain ⟨h1, h2, h3, h4⟩ := ih (s.pull a)
+    obtain ⟨g1, g2, g3, g4⟩ := pull_frame s a
+    simp only [List.foldl_cons]
+    exact ⟨h1.trans g1, h2.trans g2, h3.trans g3, h4.trans g4⟩
+
+/-- the settle phase of a sub-round in which every member of the healthy side has just broadcast its partial on `h + 1` -/
+theorem settle_progress (s : State) (U : List Nat) (h c : Nat) (hU : Side s U) (hthr : s.thr ≤ U.length) (hc : h < c)
+    (j : Nat) (hj : j ∈ U)
+    (hp : Prog s.n s.thr h c (fun k => k = j) (s.node j))
+    (hq : ∀ m ∈ s.msgs, m.dst = j → s.conn m.src m.dst = true → m.round ≤ h + 1)
+    (hm : ∀ i ∈ U, i ≠ j → (⟨i, j, h + 1⟩ : Msg) ∈ s.msgs) :
+    h + 1 ≤ (s.settle.node j).head := by
+  -- syncs pull
+  have hB := prog_foldl_pull j (List.range s.n) s hp
+  obtain ⟨b1, b2, b3, b4⟩ := foldl_pull_frame (List.range s.n) s
+  -- every message is delivered
+  have hC0 := foldl_recv j ((List.range s.n).foldl State.pull s).msgs { ((List.range s.n).foldl State.pull s) with msgs := [] }
+  obtain ⟨c1, c2, c3, c4⟩ := hC0
+  have hC : h + 1 ≤ (((List.range s.n).foldl State.pull s).deliverAll.node j).head := by
+    unfold State.deliverAll
+    rw [c4]
+    simp only [b1, b2, b3, b4]
+    have hD := prog_deliver (n := s.n) (thr := s.thr) s.conn j hc s.msgs _ _ hB hq
+    refine hD.done U hU.nodup hU.lt hthr ?_
+    intro i hi
+    by_cases hij : i = j
+    · exact Or.inl hij
+    · right
+      exact ⟨⟨i, j, h + 1⟩, hm i hi hij, rfl, hU.conn i hi j hj, rfl, rfl, hij⟩
+  -- syncs pull again
+  exact Nat.le_trans hC ((ext_forAll _ _ ext_pull).head j)
+
+/-- **Step progress.** In a fair round with a healthy side `U` (running, pairwise connected, closed) of at least `thr`
+nodes whose heads all equal `h`, below the round `c` their clocks are about to show, every member of `U` stores round
+`h + 1`.  `Quiet`: no partial for a round above `h + 1` is in flight towards `U` or cached in `U` (true whenever no node
+is ahead of `U`, `c05_quiet_of_heads`). -/
+theorem c05_step_progress (s : State) (U : List Nat) (h c : Nat)
+    (hU : Side s U) (hthr : s.thr ≤ U.length)
+    (hhead : ∀ i ∈ U, (s.node i).head = h) (hclk : ∀ i ∈ U, (s.node i).clock + 1 = c) (hc : h < c)
+    (hq : Quiet s U h) :
+    ∀ j ∈ U, h + 1 ≤ (s.fairTick.node j).head := by
+  intro j hj
+  obtain ⟨a1, a2, a3, a4, a5⟩ := foldl_act (fun n thr i => Node.tickStep n thr i) (List.range s.advance.n) s.advance List.nodup_range
+  have e0 : ∀ k, (s.advance.node k).up = (s.node k).up ∧ (s.advance.node k).head = (s.node k).head ∧
+      (s.advance.node k).clock = (s.node k).clock + 1 ∧ (s.advance.node k).held = (s.node k).held := fun k => ⟨rfl, rfl, rfl, rfl⟩
+  have hstep : ∀ i ∈ U, Prog s.n s.thr h c (fun k => k = i) (Node.tickStep s.n s.thr i (s.advance.node i)).1 ∧
+      (Node.tickStep s.n s.thr i (s.advance.node i)).2 = others s.n i (h + 1) := by
+    intro i hi
+    exact prog_tickStep ((e0 i).1.trans (hU.up i hi)) ((e0 i).2.2.1.trans (hclk i hi)) ((e0 i).2.1.trans (hhead i hi)) hc
+      (fun r k hk => hq.2 i hi r k (by rw [← (e0 i).2.2.2]; exact hk)) i
+  have hside : Side (s.advance.forAll State.tick) U := by
+    have : Ext s.advance (s.advance.forAll State.tick) := ext_forAll _ _ ext_tick
+    refine Side.ext ?_ this
+    exact ⟨hU.nodup, hU.lt, hU.up, hU.conn, hU.closed⟩
+  have hn : (s.advance.forAll State.tick).n = s.n := a1
+  have ht : (s.advance.forAll State.tick).thr = s.thr := a2
+  have hcn : (s.advance.forAll State.tick).conn = s.conn := a3
+  have hres := settle_progress (s.advance.forAll State.tick) U h c hside (by rw [ht]; exact hthr) hc j hj ?_ ?_ ?_
+  · exact hres
+  · -- node j after its tick
+    rw [hn, ht]
+    have := a4 j
+    simp only [List.mem_range] at this
+    have hlt : j < s.advance.n := hU.lt j hj
+    simp only [hlt, if_true] at this
+    show Prog s.n s.thr h c (fun k => k = j) (((List.range s.advance.n).foldl State.tick s.advance).node j)
+    rw [show ((List.range s.advance.n).foldl State.tick s.advance).node j = _ from this]
+    exact (hstep j hj).1
+  · -- nothing deliverable to j is above h + 1
+    intro m hm hdst hconn
+    rw [hcn] at hconn
+    have hm' : m ∈ s.advance.msgs ++ (List.range s.advance.n).flatMap (fun i => (Node.tickStep s.advance.n s.advance.thr i (s.advance.node i)).2) := by
+      rw [← a5]; exact hm
+    rcases List.mem_append.mp hm' with h1 | h1
+    · exact hq.1 m h1 (hdst ▸ hj) hconn
+    · obtain ⟨i, hi, hmi⟩ := List.mem_flatMap.mp h1
+      have hts := tickStep_msgs hmi
+      have hiU : i ∈ U := hU.closed j hj i (List.mem_range.mp hi) ((e0 i).1.symm.trans hts.1)
+        (Or.inl (by rw [← hts.2.1, ← hdst]; exact hconn))
+      rw [hts.2.2, (e0 i).2.1, (e0 i).2.2.1, hclk i hiU, hhead i hiU, bnpRound_behind hc]
+      exact Nat.le_refl _
+  · -- every other member's partial on h + 1 is in flight towards j
+    intro i hi hij
+    have : (⟨i, j, h + 1⟩ : Msg) ∈ s.advance.msgs ++ (List.range s.advance.n).flatMap (fun i => (Node.tickStep s.advance.n s.advance.thr i (s.advance.node i)).2) := by
+      apply List.mem_append.mpr; right
+      apply List.mem_flatMap.mpr
+      refine ⟨i, List.mem_range.mpr (hU.lt i hi), ?_⟩
+      have := (hstep i hi).2
+      show (⟨i, j, h + 1⟩ : Msg) ∈ (Node.tickStep s.n s.thr i (s.advance.node i)).2
+      rw [this]
+      exact mem_others.mpr ⟨rfl, rfl, hU.lt j hj, fun e => hij e.symm⟩
+    rw [← a5] at this
+    exact this
 
 end Drand.Net
